@@ -126,6 +126,9 @@ def run(chk: common.Check, tier: str):
                 "nested pairs; undefined rule, misspelt token, underscore item name; underscore rule; missing start) plus "
                 "the well-formed twin of each, plus random structured grammars; non-trivial = a defect is planted below "
                 "the top level; distinct by grammar text")
+    import runmodel as rm
+    rm.shipped_hypothesis(chk, "grammar_names_ok", "C13_generated_modules_resolve_every_reference",
+                           "every leaf name is a rule of the grammar or a token kind the call maker knows, literals are quoted")
     d = common.gen_dir("C13")
     # ---- re-extraction: tables of the current source, side conditions as instance lemmas
     try:
